@@ -38,7 +38,7 @@ META = {
                     'normal form: detached/fresh-fragment arguments, no cycles, spent fragments not reused, '
                     'attribute fragments installed as plasTeX.TeX does and not edited afterwards',
                     'no fault space exists for this property (sequential refinement only)'],
-    'probe_names': ['parsed_tree', 'parsed_raise', 'borrowed_without_reparenting', 'frag_into_frag', 'frag_insert_middle', 'empty_frag', 'equal_text_siblings',
+    'probe_names': ['parsed_tree', 'parsed_views_read', 'parsed_raise', 'borrowed_without_reparenting', 'frag_into_frag', 'frag_insert_middle', 'empty_frag', 'equal_text_siblings',
                     'reinsertion_of_removed', 'normalize_merged', 'clone_deep', 'clone_shallow', 'attr_frag',
                     'cmp_deep_common_ancestor', 'setitem_frag', 'detached_target', 'dfs_exhaustive', 'str_argument', 'shadow_container_edit', 'element_with_str', 'insert_beyond_end'],
     'shrink_budget': 500,
@@ -908,6 +908,8 @@ def parsed_cases(base_seed, tier):
         (['url'], ['\\newcommand{\\qsite}{example.org}', 'See \\url{http://\\qsite/a--b} twice \\url{http://\\qsite/a--b}.', '\n\n', 'End.', '\n\n']),
         ([], ['\\def\\qy{shared words}', '\\section{\\qy}', 'Body \\qy.', '\\begin{figure}F\\caption{\\qy}\\end{figure}', '\\section{\\qy}', '\n\n',
               '\\begin{itemize}\\item \\qy \\item[\\qy] \\qy\\end{itemize}', '\n\n']),
+        ([], ['Angles $\\left< a \\right>$ and $\\bigl< b \\bigr>$ and $\\Big< c \\Big>$ and $\\left( d \\right)$.', '\n\n',
+              'More \\[ \\left< x | y \\right> \\] text.', '\n\n']),
         ([], ['\\newcommand{\\qz}[1]{<#1|#1>}', '\\qz{arg} \\textit{\\qz{arg}}', '\n\n', '\\begin{tabular}{ll}\\qz{c} & \\qz{c}\\end{tabular}', '\n\n']),
     ]
     for j, (pk, items) in enumerate(shared):
@@ -1007,6 +1009,18 @@ def execute_parsed(record, res):
         n += 1
         try:
             check_parsed(doc)
+            # reading the documented derived views of the nodes (what a renderer does) must leave the tree as it is
+            touched = 0
+            for node in list(getattr(doc, 'allChildNodes', [])):
+                for attr in ('fullTitle', 'fullTocEntry', 'tocEntry', 'title', 'caption', 'textContent', 'source'):
+                    try:
+                        getattr(node, attr)
+                        touched += 1
+                    except Exception:
+                        pass
+            if touched:
+                res['probes']['parsed_views_read'] = 1
+                check_parsed(doc)
             log.append(['ok', len(doc.allChildNodes) if hasattr(doc, 'allChildNodes') else 0])
         except Violation as v:
             viol = {'sig': v.sig, 'detail': dict(v.detail, source=(op.get('rel') or ' '.join(op['items'])[:600]))}
